@@ -424,7 +424,8 @@ class InterpMixin(object):
         recv = getattr(fn, "__self__", None)
         if (recv is not None and not isinstance(recv, types.ModuleType)
                 and isinstance(recv, (str, bytes, int, bytearray))
-                and (any(is_sym(a) for a in args) or any(is_sym(a) for a in kwargs.values()))):
+                and not (all(self.deep_concrete(a) for a in args)
+                         and all(self.deep_concrete(a) for a in kwargs.values()))):
             return self.call_sym_method(recv, fn.__name__, args, kwargs)
         if fn in self.CONTAINER_SAFE or (isinstance(recv, (list, dict)) and fn.__name__ in self.CONTAINER_SAFE_METHODS):
             try:
